@@ -90,7 +90,8 @@ Section Closed.
 
 Variable T : table.
 Variable O : cid -> list attr.
-Hypothesis Hclosed : closedb T O = true.
+Variable Wd : list attr.
+Hypothesis Hclosed : closedb T O Wd = true.
 
 Record cfacts (k : cid) (ci : class_info) : Prop := {
   cf_mut : forall a, mem a (c_mutated ci) = true -> mem a (O k) = true;
@@ -108,19 +109,23 @@ Record cfacts (k : cid) (ci : class_info) : Prop := {
 Lemma closed_facts k ci : find_class T k = Some ci -> cfacts k ci.
 Proof.
   intros Hf. destruct (find_class_In _ _ _ Hf) as [Hin Hname].
-  unfold closedb in Hclosed. apply andb_true_iff in Hclosed as [_ Hall].
-  rewrite forallb_forall in Hall. specialize (Hall ci Hin).
-  unfold class_closed in Hall. rewrite Hname in Hall.
-  repeat (apply andb_true_iff in Hall as [Hall ?]).
-  rename H into Hsr, H0 into Hsm, H1 into Hsh, H2 into Hdel, H3 into Hshared, H4 into Hoth, H5 into Hal.
+  pose proof Hclosed as Hc.
+  unfold closedb in Hc. apply andb_true_iff in Hc as [_ Hall].
+  rewrite forallb_forall in Hall. pose proof (Hall ci Hin) as Hci.
+  unfold class_closed in Hci. rewrite Hname in Hci.
+  repeat (apply andb_true_iff in Hci as [Hci ?]).
+  rename H into Hsr, H0 into Hsm, H1 into Hsh, H2 into Hdel, H3 into Hshared, H4 into Hoth, H5 into Hal,
+         H6 into HW.
   split.
-  - intros a Ha. eapply subset_spec; eauto.
+  - intros a Ha. apply (subset_spec _ _ Hci). exact Ha.
   - intros a b Hab Ha. rewrite forallb_forall in Hal. apply mem2_In in Hab.
     specialize (Hal _ Hab). cbn in Hal. rewrite Ha in Hal. exact Hal.
   - intros a b Hab Ha k' cj Hcj. rewrite forallb_forall in Hoth. apply mem2_In in Hab.
     specialize (Hoth _ Hab). cbn in Hoth. rewrite Ha in Hoth. cbn in Hoth.
-    rewrite forallb_forall in Hoth. destruct (find_class_In _ _ _ Hcj) as [Hin' Hn'].
-    specialize (Hoth _ Hin'). rewrite Hn' in Hoth. exact Hoth.
+    destruct (find_class_In _ _ _ Hcj) as [Hin' Hn'].
+    pose proof (Hall cj Hin') as Hcj'. unfold class_closed in Hcj'. rewrite Hn' in Hcj'.
+    repeat (apply andb_true_iff in Hcj' as [Hcj' ?]).
+    apply (subset_spec _ _ H6). exact Hoth.
   - intros a key Hab. rewrite forallb_forall in Hshared. apply mem2_In in Hab.
     specialize (Hshared _ Hab). cbn in Hshared. destruct (mem a (O k)); [discriminate|reflexivity].
   - intros a Ha. rewrite forallb_forall in Hdel. apply mem_In in Ha.
@@ -900,6 +905,16 @@ Proof.
   intros H0 R. apply noninterference_inv. eapply reachable_inv; eauto.
 Qed.
 
+(* the whole portion of the heap that belongs to region rB (objects, allocation counter, set of
+   instances, their stores) and the whole shared portion are left untouched, exactly: whatever the
+   instances of rB do next, interleaved with the others or not, they do it on the same data *)
+Theorem foreign_frame h0 h rB evs :
+  wf0 h0 -> reachable h0 h -> all_ok rB h evs -> same_on rB h (run T h evs).
+Proof.
+  intros H0 R Hok. pose proof (reachable_inv _ _ H0 R) as HI.
+  exact (proj2 (run_inv rB evs h HI Hok)).
+Qed.
+
 (* the shared store never changes at all, whatever the devices do *)
 Theorem shared_store_frozen h0 h :
   wf0 h0 -> reachable h0 h ->
@@ -933,3 +948,149 @@ Proof.
 Qed.
 
 End Closed.
+
+(* ------------------------------------------------------------------------- *)
+(* the theorems in terms of the decidable side condition *)
+
+Theorem noninterference_ok T : sharing_ok T = true ->
+  forall h0 h rB evs B kB,
+  wf0 h0 -> reachable T h0 h -> imeta h B = Some (kB, rB) -> all_ok T rB h evs ->
+  (forall a, view T (run T h evs) B a = view T h B a) /\
+  (forall key, sview (run T h evs) key = sview h key) /\
+  (forall key, sstore (run T h evs) key = sstore h key) /\
+  imeta (run T h evs) B = Some (kB, rB).
+Proof. intros H. exact (noninterference T _ _ H). Qed.
+
+Theorem foreign_frame_ok T : sharing_ok T = true ->
+  forall h0 h rB evs, wf0 h0 -> reachable T h0 h -> all_ok T rB h evs -> same_on rB h (run T h evs).
+Proof. intros H. exact (foreign_frame T _ _ H). Qed.
+
+Theorem shared_store_frozen_ok T : sharing_ok T = true ->
+  forall h0 h, wf0 h0 -> reachable T h0 h ->
+  (forall key, sstore h key = sstore h0 key) /\ (forall key, sview h key = sview h0 key).
+Proof. intros H. exact (shared_store_frozen T _ _ H). Qed.
+
+Theorem fresh_equals_first_ok T : sharing_ok T = true ->
+  forall h0 r evs k script,
+  wf0 h0 -> fresh_region h0 r -> all_ok T r h0 evs ->
+  allowedb T (run T h0 evs) (ENew k r script) = true ->
+  let h := run T h0 evs in
+  let late := step T h (ENew k r script) in
+  let first := step T h0 (ENew k r script) in
+  (imeta late (icount h) = Some (k, r) <-> imeta first (icount h0) = Some (k, r)) /\
+  (forall a, view T late (icount h) a = view T first (icount h0) a).
+Proof. intros H. exact (fresh_equals_first T _ _ H). Qed.
+
+(* the import-time heap built from the table satisfies the hypotheses *)
+Lemma boot_wf0 T : wf0 (boot T).
+Proof.
+  split; [|split]; cbn; auto.
+  intros key v. destruct (index_of key (all_keys T) 0); [|discriminate].
+  intros H. injection H as <-. cbn. auto.
+Qed.
+
+Lemma boot_fresh T r : r <> 0%nat -> fresh_region (boot T) r.
+Proof.
+  intros Hr. apply Nat.eqb_neq in Hr. split; [|split]; cbn.
+  - rewrite Hr. reflexivity.
+  - intros n. rewrite Hr. reflexivity.
+  - intros j k. discriminate.
+Qed.
+
+(* ------------------------------------------------------------------------- *)
+(* Examples: the hypotheses are satisfiable by a non-trivial table and run, and the side
+   condition is necessary: the two shapes of the known findings interfere in the model. *)
+
+Definition ex_good : table :=
+  [ {| c_name := "K";
+       c_cattrs := [("commands", "C:K.commands"); ("channels", "C:K.channels")];
+       c_mutated := ["channels"; "boards"];
+       c_alias := [("current", "boards")];
+       c_alias_other := [];
+       c_alias_shared := [("table", "C:K.commands")];
+       c_deleted := ["tmp"];
+       c_shadowed := ["channels"];
+       c_smut := []; c_srebind := [] |} ].
+
+Definition ex_script : list op :=
+  [ORebind "msg" (SImm 0); ORebind "channels" (SCopy "channels"); ORebind "boards" (SFresh 7);
+   ORebind "table" (SShared "C:K.commands"); OMutate "channels" 5].
+
+Definition ex_events : list event :=
+  [ENew "K" 1%nat ex_script; ENew "K" 2%nat ex_script;
+   EOp 0%nat (OMutate "channels" 11); EOp 0%nat (ORebind "current" (SSelf "boards"));
+   EOp 0%nat (OMutate "boards" 12); EOp 0%nat (ORebind "tmp" (SImm 1)); EOp 0%nat (ODel "tmp")].
+
+Example ex_good_ok : sharing_ok ex_good = true.
+Proof. vm_compute. reflexivity. Qed.
+
+Fixpoint all_allowedb (T : table) (h : heap) (evs : list event) : bool :=
+  match evs with [] => true | e :: es => allowedb T h e && all_allowedb T (step T h e) es end.
+
+(* every event is permitted, both instances exist, A's state really changed, B's did not *)
+Example ex_good_run :
+  let h := run ex_good (boot ex_good) ex_events in
+  all_allowedb ex_good (boot ex_good) ex_events = true /\
+  imeta h 0%nat = Some ("K", 1%nat) /\ imeta h 1%nat = Some ("K", 2%nat) /\
+  view ex_good h 0%nat "channels" = DObj (Some 11) /\
+  view ex_good h 1%nat "channels" = DObj (Some 5) /\
+  view ex_good h 0%nat "boards" = DObj (Some 12) /\
+  view ex_good h 1%nat "boards" = DObj (Some 7) /\
+  sview h "C:K.channels" = DObj (Some 0).
+Proof. vm_compute. repeat split; reflexivity. Qed.
+
+(* F21 shape (dbesm obs_mode on the pinned tree): class-level list mutated through self, never
+   rebound by __init__ *)
+Definition ex_f21 : table :=
+  [ {| c_name := "dbesm.System";
+       c_cattrs := [("obs_mode", "C:dbesm.System.obs_mode")];
+       c_mutated := ["obs_mode"; "boards"];
+       c_alias := []; c_alias_other := []; c_alias_shared := [];
+       c_deleted := []; c_shadowed := []; c_smut := []; c_srebind := [] |} ].
+
+Definition ex_f21_init : list op := [ORebind "boards" (SFresh 0)].
+
+Example f21_side_condition_fails : sharing_ok ex_f21 = false.
+Proof. vm_compute. reflexivity. Qed.
+
+Example f21_refuted :
+  exists evsA : list event,
+    let h := run ex_f21 (boot ex_f21) [ENew "dbesm.System" 1%nat ex_f21_init; ENew "dbesm.System" 2%nat ex_f21_init] in
+    all_allowedb ex_f21 (boot ex_f21)
+      ([ENew "dbesm.System" 1%nat ex_f21_init; ENew "dbesm.System" 2%nat ex_f21_init] ++ evsA) = true /\
+    Forall (fun e => ev_region h e = Some 1%nat) evsA /\
+    view ex_f21 (run ex_f21 h evsA) 1%nat "obs_mode" <> view ex_f21 h 1%nat "obs_mode" /\
+    (* and a late third instance does not start like the first one did *)
+    view ex_f21 (step ex_f21 (run ex_f21 h evsA) (ENew "dbesm.System" 3%nat ex_f21_init)) 2%nat "obs_mode"
+      <> view ex_f21 (step ex_f21 (boot ex_f21) (ENew "dbesm.System" 3%nat ex_f21_init)) 0%nat "obs_mode".
+Proof.
+  exists [EOp 0%nat (OMutate "obs_mode" 1)]. vm_compute.
+  split; [reflexivity|]. split; [repeat constructor|]. split; discriminate.
+Qed.
+
+(* F20 shape (minor_servos configurations on the pinned tree): __init__ itself refills the
+   class-level table in place (setup_import), and SETUP stores into it through an alias *)
+Definition ex_f20 : table :=
+  [ {| c_name := "minor_servos.System";
+       c_cattrs := [("configurations", "C:minor_servos.System.configurations")];
+       c_mutated := ["configurations"; "servos"];
+       c_alias := [("servos", "configurations")];
+       c_alias_other := []; c_alias_shared := [];
+       c_deleted := []; c_shadowed := []; c_smut := []; c_srebind := [] |} ].
+
+Definition ex_f20_init : list op := [ORebind "servos" (SFresh 0); OMutate "configurations" 0].
+
+Example f20_side_condition_fails : sharing_ok ex_f20 = false.
+Proof. vm_compute. reflexivity. Qed.
+
+Example f20_refuted :
+  let boot2 := run ex_f20 (boot ex_f20)
+                 [ENew "minor_servos.System" 1%nat ex_f20_init; ENew "minor_servos.System" 2%nat ex_f20_init] in
+  let evsA := [EOp 0%nat (OMutate "configurations" 50)] in
+  all_allowedb ex_f20 (boot ex_f20)
+    ([ENew "minor_servos.System" 1%nat ex_f20_init; ENew "minor_servos.System" 2%nat ex_f20_init] ++ evsA) = true /\
+  view ex_f20 (run ex_f20 boot2 evsA) 1%nat "configurations" <> view ex_f20 boot2 1%nat "configurations" /\
+  (* constructing a third instance changes what the first two see *)
+  view ex_f20 (step ex_f20 (run ex_f20 boot2 evsA) (ENew "minor_servos.System" 3%nat ex_f20_init)) 0%nat "configurations"
+    <> view ex_f20 (run ex_f20 boot2 evsA) 0%nat "configurations".
+Proof. vm_compute. split; [reflexivity|]. split; discriminate. Qed.
